@@ -191,11 +191,9 @@ def closure_truth(F, cf):
         pf = mirq.path_facts(cf, p)
         if pf is None:
             continue
-        val = None
-        for b3 in p:
-            for s in cf.blocks[b3]['s']:
-                if s['k'] == 'assign' and s['lhs']['l'] == 0:
-                    val = cf.expr_rvalue(s['rv'])
+        val = mirq.value_on_path(cf, p, 0)
+        if val[0] == 'tmp':
+            val = None
         atoms = dict(pf['atoms'])
         if val is None:
             continue
@@ -217,6 +215,9 @@ def closure_truth(F, cf):
                     e = e[2]
                     continue
                 break
+            if e[0] == 'const' and const_of(e) is not None:
+                out.append((atoms, bool(const_of(e)[0]) != neg))
+                continue
             k = show(e)
             a1 = dict(atoms)
             a1[k] = not neg
